@@ -473,6 +473,13 @@ def frames(ctx):
         ok = P.get('iso_sdu_length') == (0, 12) and P.get('packet_status_flag') == (15, 1) and 'self.iso_sdu_length | self.packet_status_flag << 15' in s2
         R.check(ok, rule, f'{H}.HCI_IsoDataPacket | SDU info word', 'length 12 bits @0, status @15 on both sides', f'SDU info word: parsed {P}', p.loc(fb))
         R.check('should_include_sdu_info = not pb_flag & 1' in s1, rule, f'{H}.HCI_IsoDataPacket | SDU info presence', 'SDU info present iff first fragment / complete SDU (pb_flag bit 0 clear)', 'presence rule of the SDU info section changed', p.loc(fb))
+        # the flag announced in the header and the presence of the section are the same predicate
+        pi = p.find(f'{H}.HCI_IsoDataPacket.__post_init__')
+        flag_pred = next((norm(n.value) for n in walk_local(pi) if isinstance(n, ast.Assign) and dotted(n.targets[0]) == 'self.ts_flag'), None) if pi is not None else None
+        ts_guard = next((norm(n.test) for n in walk_local(bb) if isinstance(n, ast.If) and any("fmt += 'I'" == norm(x) for x in n.body)), None)
+        rd_guard = next((norm(n.test) for n in walk_local(fb) if isinstance(n, ast.If) and any("'<I'" in norm(x) for x in n.body)), None)
+        R.check(flag_pred is not None and flag_pred == ts_guard and rd_guard == 'ts_flag', rule, f'{H}.HCI_IsoDataPacket | time-stamp presence', f'TS flag := `{flag_pred}` = condition under which the 4 time-stamp bytes are written; parser reads them iff the flag is set',
+                f'the TS flag is computed as `{flag_pred}` but the time stamp is written when `{ts_guard}` (read when `{rd_guard}`): for some value the header announces a time stamp that is not there', p.loc(bb))
         steps = s1.count('pos += 4')
         R.check(steps == 3, rule, f'{H}.HCI_IsoDataPacket | position bookkeeping', 'pos advances by 4 after the header and after each 4-byte optional section', f'{steps} position advances (expected 3)', p.loc(fb))
     # packet dispatch by type byte
